@@ -27,7 +27,11 @@ RULE = ('Programs: port kind in {lock-protected device double with a byte-wise w
         'multiset (x sub-ports for MultiPort); per receiver and sender the sequence numbers are in sending order (merge of '
         'k FIFO streams for MultiPort); a received message is not the sent object and is unaffected by later mutation; all '
         'threads finish within the step bound (no deadlock / livelock). Non-trivial = the executed trace has a context '
-        'switch while the switched-out thread was inside send/receive/poll; distinct by (program, executed thread sequence).')
+        'switch while the switched-out thread was inside send/receive/poll; distinct by (program, executed thread sequence).'
+        ' Later additions: port kinds keep (device double queueing the object handed to _send), ioport-shared (one'
+        ' output device behind two wrappers and direct senders), multi-yield, pqueue (ParserQueue judged against'
+        ' its parser\'s order); real-time senders next to multi-byte senders; programs preemptible inside the'
+        ' encoder; receivers with over-subscribed quotas; 140 000-message backlog.')
 ASSUMPTIONS = ['interleaving granularity is one source line of the traced modules; deque/list operations are atomic under '
                'the GIL, switches inside one statement are not explored',
                'ParserQueue receivers use poll() only (queue.Queue.get would block the OS thread outside the scheduler)']
